@@ -13,8 +13,10 @@ CONSTANTS MaxEx,
 
 Methods == {"GET", "HEAD", "POST", "PUT", "DELETE", "OPTIONS", "PURGE"}
 BodyMethods == {"POST", "PUT", "DELETE", "PURGE"}
+\* slow: the body is sent with a pause longer than the read-header limit (which must not apply to bodies)
 Reqs == { r \in [m : Methods, ver : {10, 11}, copt : {"none", "close", "ka"}, body : {"none", "cl", "chunked"},
-                 sz : 1..3, ae : {"absent", "gzip", "br"}] :
+                 sz : 1..3, ae : {"absent", "gzip", "br"}, slow : BOOLEAN] :
+            /\ (r.slow => r.body # "none" /\ r.sz > 1)
             /\ (r.body # "none" => r.m \in BodyMethods)
             /\ (r.m \in {"POST", "PUT"} => r.body # "none")
             /\ (r.ver = 10 => r.body # "chunked")
@@ -50,7 +52,7 @@ Wire(r, u, closing) ==
 VARIABLES k, phase, req, wire, alive, closing, nRead, nWrote, inflight
 vars == <<k, phase, req, wire, alive, closing, nRead, nWrote, inflight>>
 
-NoReq == [m |-> "GET", ver |-> 11, copt |-> "none", body |-> "none", sz |-> 1, ae |-> "absent"]
+NoReq == [m |-> "GET", ver |-> 11, copt |-> "none", body |-> "none", sz |-> 1, ae |-> "absent", slow |-> FALSE]
 Init == /\ k = 0 /\ phase = "idle" /\ req = NoReq /\ wire = <<>> /\ alive = TRUE /\ closing = FALSE
         /\ nRead = 0 /\ nWrote = 0 /\ inflight = 0
 
